@@ -878,6 +878,25 @@ def rule_local(ctx, rep, rid="R-C03-local"):
                         inner = ty[m.end():]
                         if m.group(1) == "Vec" and inner.lstrip().startswith("ironplc_dsl::diagnostic::Diagnostic"):
                             continue
+                        # a set that is emptied (cleared / re-created) inside a visit method is per-declaration scratch space, not a table of
+                        # other declarations
+                        scratch = False
+                        for vb in bodies:
+                            if not vb.f["name"].startswith("visit_"):
+                                continue
+                            for c in vb.calls():
+                                if (c.callee or "").split("::")[-1] in ("clear", "drain", "take") and c.args:
+                                    p_ = op_place(c.args[0])
+                                    fs_ = [x for x in vb.root(p_)[1] if isinstance(x, list) and x[0] == "f"] if p_ is not None else []
+                                    if fs_ and fs_[-1][3] == a["id"] and fs_[-1][2] == fl["name"]:
+                                        scratch = True
+                            for _, _, st_ in vb.all_stmts():
+                                if st_[0] == "=":
+                                    fs_ = [x for x in st_[1][1] if isinstance(x, list) and x[0] == "f"]
+                                    if fs_ and fs_[-1][3] == a["id"] and fs_[-1][2] == fl["name"] and len([x for x in st_[1][1] if isinstance(x, list)]) == len(fs_):
+                                        scratch = True
+                        if scratch:
+                            continue
                         bad.append("%s.%s: %s" % (a["id"].split("::")[-1], fl["name"], ty[:80]))
         ap = [b for b in bodies if b.f["name"] == "apply" and b.f.get("dk") != "Closure"]
         for b in ap:
